@@ -72,6 +72,11 @@ def RecvRes.cons (i : Nat) : RecvRes → RecvRes
   | .crash => .crash
   | .done o => .done { o with fwd := i :: o.fwd }
 
+theorem RecvRes.cons_ne_crash (i : Nat) (r : RecvRes) (h : r ≠ .crash) : RecvRes.cons i r ≠ .crash := by
+  cases r with
+  | crash => exact absurd rfl h
+  | done o => simp [RecvRes.cons]
+
 /-- The receive loop; `first` = no real request has been seen yet, `i` = index of the next request.
     The script ends with the stream's EOF (a clean termination: no error). -/
 def recvG (guard : Bool) (first : Bool) (i : Nat) : List FReq → RecvRes
